@@ -1008,17 +1008,18 @@ class PDSLabelEncoder(ODLEncoder):
 
         if grp_count > 0 and obj_count < 1:
             if self.convert_group_to_object:
-                for k, v in module.items():
+                items = list(module.items())
+                for i, (k, v) in enumerate(items):
                     # First try to convert any GROUPs that would not
                     # be valid PDS GROUPs.
                     if isinstance(v, self.grpcls) and not self.is_PDSgroup(v):
-                        module[k] = self.objcls(v)
+                        self._group_to_object(module, items, i)
                         break
                 else:
                     # Then just convert the first GROUP
-                    for k, v in module.items():
+                    for i, (k, v) in enumerate(items):
                         if isinstance(v, self.grpcls):
-                            module[k] = self.objcls(v)
+                            self._group_to_object(module, items, i)
                             break
                     else:
                         raise ValueError(
@@ -1039,6 +1040,18 @@ class PDSLabelEncoder(ODLEncoder):
             return s.replace("\t", (" " * self.tab_replace))
         else:
             return s
+
+    def _group_to_object(self, module, items: list, index: int):
+        # Replaces the GROUP at *index* of *module* by an OBJECT, in place.
+        # On a multi-dict, module[k] = ... would also delete every later
+        # item that has the same name, so rebuild it from its items instead.
+        (k, v) = items[index]
+        if hasattr(module, "extend") and hasattr(module, "clear"):
+            items[index] = (k, self.objcls(v))
+            module.clear()
+            module.extend(items)
+        else:
+            module[k] = self.objcls(v)
 
     def is_PDSgroup(self, group: abc.Mapping) -> bool:
         """Returns true if the dict-like *group* qualifies as a PDS Group,
